@@ -91,6 +91,12 @@ def gen(rng, tier):
     cases = []
     for g in range(n):
         s = G.gen_asym_joint(rng) if g % 4 == 3 else G.gen_solvable(rng)
+        if g % 4 == 0:
+            # (these groups are turned by a general angle: supports and links that treat dx and dy alike)
+            for _ in range(20):
+                if isotropic(s):
+                    break
+                s = [G.gen_beam, G.gen_portal, G.gen_chain][_ % 3](rng)
         # loads whose treatment depends on the bar's angle or drawing direction: a global-axis
         # distributed load on some bar, and a concentrated load on a bar end that sits on a support
         b = rng.choice(s.bars)
@@ -122,6 +128,17 @@ def gen(rng, tier):
                 near_mid = b["id"]
             else:
                 near_mid = None
+        elif g % 4 == 0:
+            # three load lines at one point (a global force, a local force, a moment): turned by a general angle the global
+            # force is written as two lines, four in all
+            cand = [b for b in s.bars if b["l1"][2] or b["l2"][2]] or s.bars
+            b = cand[(g // 4) % len(cand)]
+            tt = Fr(rng.choice(["0.55", "0.35", "0.7"]))
+            near_mid = None
+            if all(abs(tt - x) > Fr("0.002") for l in s.loads if l["bar"] == b["id"] for x in ([l["t"]] if l["kind"] == "c" else [l["t0"], l["t1"]])):
+                s.loads.append({"kind": "c", "term": "fy", "local": False, "bar": b["id"], "t": tt, "v": Fr(-1500)})
+                s.loads.append({"kind": "c", "term": "fy", "local": True, "bar": b["id"], "t": tt, "v": Fr(800)})
+                s.loads.append({"kind": "c", "term": "mz", "local": True, "bar": b["id"], "t": tt, "v": Fr(-60000)})
         elif g % 4 == 2:
             # two point loads closer together than a thousandth of the bar, on a bar that is also drawn from its other end
             cand = [b for b in s.bars if b["l1"][2] or b["l2"][2]] or s.bars
@@ -138,6 +155,8 @@ def gen(rng, tier):
         iso = isotropic(s)
         rots = ROTS if iso else [r for r in ROTS if r[0] == 0 or r[1] == 0]
         cr, sr = rng.choice(rots)
+        if g % 4 == 0 and iso:
+            cr, sr = rng.choice([r for r in ROTS if r[0] != 0 and r[1] != 0])
         dx, dy = Fr(rng.choice(["1000", "-37.5", "123456", "0.125"])), Fr(rng.choice(["-2000", "14.25", "999999", "0"]))
         rev = [b["id"] for b in s.bars if rng.random() < 0.5] or [s.bars[0]["id"]]
         if near_mid and near_mid not in rev:
